@@ -495,7 +495,7 @@ PROPERTIES['C19']['obligations'] += [
 ]
 PROPERTIES['C14']['obligations'] += [
     dict(name='tree2d_query_n%d' % n, harness='c14_tree2d.cpp', entry='h_query', defs={'VF_N': n},
-         unwind={'auto': True, 'start': 3, 'max': 80, 'rounds': 24}, recursion={'default': 4}, backends=['minisat', 'kissat'], timeout=1200,
+         unwind={'auto': True, 'start': 3, 'max': 80, 'rounds': 24}, recursion={'default': 4}, backends=['minisat', 'kissat'], timeout=3000,
          tiers=['quick', 'thorough'] if n == 9 else ['thorough'],
          claim='QueryTwoDTree on ANY point array satisfying the k-d tree invariant (middle element splits by x / y alternately, ties with the split value on either side) and ANY rectangle: the callback is invoked exactly once for every point inside the closed rectangle and never for another one',
          bounds='%d points (%d tree level%s above the linearly scanned leaves of <= 8 points), all finite doubles |x|<=1e100 for points and rectangle (min<=max not assumed)' % (n, 1 if n < 19 else 2, '' if n < 19 else 's'),
@@ -503,7 +503,7 @@ PROPERTIES['C14']['obligations'] += [
     for n in (9, 19)
 ] + [
     dict(name='tree2d_build_n9', harness='c14_tree2d.cpp', entry='h_build', defs={'VF_N': 9}, models=['stdlib.h'],
-         unwind={'auto': True, 'default': 11}, recursion={'default': 4}, backends=['minisat', 'kissat'], timeout=1800, tiers=['thorough'],
+         unwind={'auto': True, 'default': 11}, recursion={'default': 4}, backends=['minisat', 'kissat'], timeout=1800, tiers=['experimental'],
          claim='BuildTwoDTree establishes the invariant the query obligation assumes (so the two compose) and only permutes the points',
          bounds='9 points on the lattice [-2,2]^2 (many ties with the median); sequential stable_sort (std::stable_sort)',
          targets=['tree2d.cpp BuildTwoDTree, BuildTwoDTreeImpl', 'parallel.h stable_sort (Seq)'])
